@@ -10,13 +10,18 @@ writes through `dot-writer`). This file proves
 * `decodeDot_parseDot_renderDot`: for every well-formed document (`DotDoc.textOK`) and string-safe
   title / class texts (`strSafe`), `(parseDot (renderDot title edgeText d)).bind decodeDot = some d`;
   `decodeDot_parseDot_renderDot_of_docOK` is the same under the weaker condition the proof really
-  needs (`DocOK`: kinds in {0,1,2}, token types only on accepting nodes), and
+  needs (`DocOK`: every node is accepting, or the start node with number 0, or a plain node with
+  another number; token types only on accepting nodes), and
   `decodeDot_parseDot_renderDot_dotDoc` instantiates it to the documents `dotDoc M` of
   `Model/Dot.lean` / `Props/C18.lean`, for every mode `M`;
 * `parseDot_wellformed_only`: malformed texts are rejected;
 * non-vacuity: a literal document with five nodes and a cluster (`exText_decodes`,
   `exDoc_renders`, `exDoc_roundtrip`) and the real file `example1.dot` (`example1_decodes`,
   `example1_renders`: `renderDot` reproduces it character by character);
+* leniency: restyled variants of the literal document (other colours and shapes, extra attributes,
+  extra graph statements, default-attribute statements) decode to the same document
+  (`exRestyled_decodes`, `exDefaults_decodes`); what is not cosmetic is still checked
+  (`decodeDot_still_strict`);
 * `pStmts_fuel` / `parseToks_fuel`: the fuel of the parser (number of tokens) is never exhausted:
   any larger amount gives the same result.
 
@@ -35,7 +40,13 @@ Where the Lean functions deliberately differ from `dotparse.rs`:
 4. The Rust `Graph` keeps only the last `label` of each (sub)graph, drops the other graph
    attributes and the cluster names, and sorts statements by kind; `DGraphT` keeps all statements in
    order, `decodeDot` extracts the same information (`lastLabel`, node/edge/cluster statements).
-5. The loops of `lex` are one state machine (`lexStep`/`lexRun`) instead of nested loops; the
+5. `decodeDot` reads the kind of a node from its label and number only (`"<id> T<tid>"` accepting,
+   else the label must be `"<id>"` and node 0 is the start node) and ignores `shape`, `color`,
+   `penwidth` and unknown attributes; `decode` reads the kind from `color` (blue/red/none, any
+   other colour an error).
+6. The parser also accepts `node [..];`, `edge [..];`, `graph [..];` (`DStmt.dflt`, ignored by
+   `decodeDot`); `dotparse.rs` rejects them.
+7. The loops of `lex` are one state machine (`lexStep`/`lexRun`) instead of nested loops; the
    recursion of `P::body` is bounded by fuel, which `pStmts_fuel` shows to be immaterial.
 -/
 namespace Scnr
@@ -553,7 +564,7 @@ theorem pStmts_attr_str (f : Nat) (k v : List Nat) (hk : k ≠ kwSubgraph) (rest
       match pStmts f rest with
       | none => none
       | some (ss, r2) => some (.attr k v :: ss, r2) := by
-  simp only [pStmts, hk, if_false, pAttrStmt, tokValue]
+  simp only [pStmts, hk, if_false, pIdStmt, pAttrStmt, tokValue]
   cases pStmts f rest <;> rfl
 
 theorem pStmts_attr_id (f : Nat) (k v : List Nat) (hk : k ≠ kwSubgraph) (rest : List DTok) :
@@ -561,7 +572,7 @@ theorem pStmts_attr_id (f : Nat) (k v : List Nat) (hk : k ≠ kwSubgraph) (rest 
       match pStmts f rest with
       | none => none
       | some (ss, r2) => some (.attr k v :: ss, r2) := by
-  simp only [pStmts, hk, if_false, pAttrStmt, tokValue]
+  simp only [pStmts, hk, if_false, pIdStmt, pAttrStmt, tokValue]
   cases pStmts f rest <;> rfl
 
 theorem ParsesTo.step {b : Nat} {toks rest tail r : _} {st : DStmt}
@@ -701,32 +712,44 @@ theorem stripPrefix_append (p s : List Nat) : stripPrefix p (p ++ s) = some s :=
 theorem idOf_name (pre : List Nat) (n : Nat) : idOf pre (pre ++ natDigits n) = some n := by
   simp only [idOf, stripPrefix_append, parseNat_natDigits]
 
-/-- what the round trip needs of a node: a known kind, and a token type only on accepting nodes -/
-def NodeOK (n : DNode) : Prop := (n.kind = 0 ∨ n.kind = 1 ∨ n.kind = 2) ∧ (n.kind = 2 ∨ n.tid = 0)
+/-- what the round trip needs of a node: it is accepting (kind 2), or the start node (kind 1,
+    number 0), or a plain node (kind 0, not number 0); only accepting nodes carry a token type -/
+def NodeOK (n : DNode) : Prop :=
+  n.kind = 2 ∨ (n.kind = 1 ∧ n.id = 0 ∧ n.tid = 0) ∨ (n.kind = 0 ∧ n.id ≠ 0 ∧ n.tid = 0)
+
+theorem stripPrefix_short (a b : List Nat) (hb : b ≠ []) : stripPrefix (a ++ b) a = none := by
+  induction a with
+  | nil =>
+    cases b with
+    | nil => exact absurd rfl hb
+    | cons x b => rfl
+  | cons c a ih => simp [stripPrefix, ih]
+
+theorem acceptingTid_plain (id : Nat) : acceptingTid id (natDigits id) = none := by
+  simp [acceptingTid, stripPrefix_short]
+
+theorem acceptingTid_accepting (id tid : Nat) :
+    acceptingTid id (natDigits id ++ [32, 84] ++ natDigits tid) = some tid := by
+  simp only [acceptingTid, stripPrefix_append, parseNat_natDigits]
 
 theorem decodeNode_nodeStmt (pre : List Nat) (n : DNode) (h : NodeOK n) :
     decodeNode pre (pre ++ natDigits n.id) (nodeAttrs n) = some n := by
   obtain ⟨id, kind, tid⟩ := n
-  obtain ⟨hk, ht⟩ := h
-  simp only at hk ht
   unfold decodeNode nodeAttrs
   simp only [idOf_name]
-  rcases hk with hk | hk | hk
-  · subst hk
-    have ht' : tid = 0 := by omega
-    subst ht'
-    simp [lookupAttr, kwLabel, kwColor]
-  · subst hk
-    have ht' : tid = 0 := by omega
-    subst ht'
-    simp [lookupAttr, kwLabel, kwColor, kwShape, kwPenwidth, kwBlue]
-  · subst hk
-    have hs : stripPrefix (natDigits id ++ [32, 84]) (natDigits id ++ 32 :: 84 :: natDigits tid)
-        = some (natDigits tid) := by
-      have := stripPrefix_append (natDigits id ++ [32, 84]) (natDigits tid)
-      simpa using this
-    simp [lookupAttr, kwLabel, kwColor, kwShape, kwPenwidth, kwBlue, kwRed, List.append_assoc, hs,
-      parseNat_natDigits]
+  rcases h with h | ⟨h1, h2, h3⟩ | ⟨h1, h2, h3⟩ <;> simp only at *
+  · subst h
+    have hl : lookupAttr kwLabel [(kwShape, kwCircle), (kwColor, kwRed), (kwPenwidth, kwThree),
+        (kwLabel, natDigits id ++ [32, 84] ++ natDigits tid)]
+        = some (natDigits id ++ [32, 84] ++ natDigits tid) := rfl
+    simp only [Nat.reduceEqDiff, if_false, if_true, hl, acceptingTid_accepting]
+  · subst h1; subst h2; subst h3
+    have hl : lookupAttr kwLabel [(kwShape, kwCircle), (kwColor, kwBlue), (kwPenwidth, kwThree),
+        (kwLabel, natDigits 0)] = some (natDigits 0) := rfl
+    simp only [if_true, hl, acceptingTid_plain]
+  · subst h1; subst h3
+    have hl : lookupAttr kwLabel [(kwLabel, natDigits id)] = some (natDigits id) := rfl
+    simp only [Nat.reduceEqDiff, if_false, if_true, hl, acceptingTid_plain, h2]
 
 theorem afterLast_none (s : List Nat) (h : ∀ c ∈ s, c ≠ 32) : afterLast kwClassOpen s = none := by
   induction s with
@@ -912,10 +935,10 @@ theorem nodeOK_of_nodesOKFrom : ∀ (ns : List DNode) (i : Nat), nodesOKFrom i n
   | nil => intro i _ n hn; cases hn
   | cons m ns ih =>
     intro i h n hn
-    simp only [nodesOKFrom, Bool.and_eq_true, Bool.or_eq_true, beq_iff_eq] at h
+    simp only [nodesOKFrom, Bool.and_eq_true, Bool.or_eq_true, beq_iff_eq, bne_iff_ne] at h
     rw [List.mem_cons] at hn
     cases hn with
-    | inl hm => subst hm; exact ⟨by omega, by omega⟩
+    | inl hm => subst hm; unfold NodeOK; omega
     | inr hm => exact ih (i + 1) h.2 n hm
 
 theorem graphOK_of_textOK (g : DGraph) (h : g.textOK = true) : GraphOK g := by
@@ -1077,6 +1100,175 @@ example : (parseDot (renderDot exTitle exEdgeText exDoc)).bind decodeDot = some 
         · decide
         · split <;> decide)
 
+/-! ## Restyled files still decode
+
+`decodeDot` reads the kind of a node from its label and number only and ignores every other
+attribute and every graph-level statement other than `label`. -/
+
+/-- `exText` restyled: other colours, `shape=doublecircle` on accepting nodes, an extra
+    `fontname="Helvetica"` on the nodes, `fontsize=10;` graph statements.
+```
+digraph {
+  label="M: a|b...";
+  rankdir=LR;
+  fontsize=10;
+  "0" [shape=circle, color=green, penwidth=2, fontname="Helvetica", label="0"];
+  "1" [fontname="Helvetica", label="1"];
+  "2" [shape=doublecircle, color=black, fontname="Helvetica", label="2 T7"];
+  "3" [label="3", fontname="Helvetica"];
+  "4" [shape=doublecircle, color=black, fontname="Helvetica", label="4 T12"];
+  "0" -> "1" [label="a (C#0)"];
+  "1" -> "2" [label="\" (C#3)"];
+  "0" -> "3" [label="[a-z] (C#10)"];
+  "3" -> "4" [label="\\ (C#2)"];
+  "3" -> "3" [label="a (C#0)"];
+  subgraph cluster_0 {
+    label="LA for T7(Pos)";
+    fontsize=10;
+    "7_0" [shape=circle, color=green, fontname="Helvetica", label="0"];
+    "7_1" [shape=doublecircle, color=black, fontname="Helvetica", label="1 T0"];
+    "7_0" -> "7_1" [label="a (C#0)"];
+  }
+}
+``` -/
+def exRestyledText : List Nat := [
+    100, 105, 103, 114, 97, 112, 104, 32, 123, 10, 32, 32, 108, 97, 98, 101, 108, 61, 34, 77, 58,
+    32, 97, 124, 98, 46, 46, 46, 34, 59, 10, 32, 32, 114, 97, 110, 107, 100, 105, 114, 61, 76, 82,
+    59, 10, 32, 32, 102, 111, 110, 116, 115, 105, 122, 101, 61, 49, 48, 59, 10, 32, 32, 34, 48, 34,
+    32, 91, 115, 104, 97, 112, 101, 61, 99, 105, 114, 99, 108, 101, 44, 32, 99, 111, 108, 111, 114,
+    61, 103, 114, 101, 101, 110, 44, 32, 112, 101, 110, 119, 105, 100, 116, 104, 61, 50, 44, 32,
+    102, 111, 110, 116, 110, 97, 109, 101, 61, 34, 72, 101, 108, 118, 101, 116, 105, 99, 97, 34,
+    44, 32, 108, 97, 98, 101, 108, 61, 34, 48, 34, 93, 59, 10, 32, 32, 34, 49, 34, 32, 91, 102,
+    111, 110, 116, 110, 97, 109, 101, 61, 34, 72, 101, 108, 118, 101, 116, 105, 99, 97, 34, 44, 32,
+    108, 97, 98, 101, 108, 61, 34, 49, 34, 93, 59, 10, 32, 32, 34, 50, 34, 32, 91, 115, 104, 97,
+    112, 101, 61, 100, 111, 117, 98, 108, 101, 99, 105, 114, 99, 108, 101, 44, 32, 99, 111, 108,
+    111, 114, 61, 98, 108, 97, 99, 107, 44, 32, 102, 111, 110, 116, 110, 97, 109, 101, 61, 34, 72,
+    101, 108, 118, 101, 116, 105, 99, 97, 34, 44, 32, 108, 97, 98, 101, 108, 61, 34, 50, 32, 84,
+    55, 34, 93, 59, 10, 32, 32, 34, 51, 34, 32, 91, 108, 97, 98, 101, 108, 61, 34, 51, 34, 44, 32,
+    102, 111, 110, 116, 110, 97, 109, 101, 61, 34, 72, 101, 108, 118, 101, 116, 105, 99, 97, 34,
+    93, 59, 10, 32, 32, 34, 52, 34, 32, 91, 115, 104, 97, 112, 101, 61, 100, 111, 117, 98, 108,
+    101, 99, 105, 114, 99, 108, 101, 44, 32, 99, 111, 108, 111, 114, 61, 98, 108, 97, 99, 107, 44,
+    32, 102, 111, 110, 116, 110, 97, 109, 101, 61, 34, 72, 101, 108, 118, 101, 116, 105, 99, 97,
+    34, 44, 32, 108, 97, 98, 101, 108, 61, 34, 52, 32, 84, 49, 50, 34, 93, 59, 10, 32, 32, 34, 48,
+    34, 32, 45, 62, 32, 34, 49, 34, 32, 91, 108, 97, 98, 101, 108, 61, 34, 97, 32, 40, 67, 35, 48,
+    41, 34, 93, 59, 10, 32, 32, 34, 49, 34, 32, 45, 62, 32, 34, 50, 34, 32, 91, 108, 97, 98, 101,
+    108, 61, 34, 92, 34, 32, 40, 67, 35, 51, 41, 34, 93, 59, 10, 32, 32, 34, 48, 34, 32, 45, 62,
+    32, 34, 51, 34, 32, 91, 108, 97, 98, 101, 108, 61, 34, 91, 97, 45, 122, 93, 32, 40, 67, 35, 49,
+    48, 41, 34, 93, 59, 10, 32, 32, 34, 51, 34, 32, 45, 62, 32, 34, 52, 34, 32, 91, 108, 97, 98,
+    101, 108, 61, 34, 92, 92, 32, 40, 67, 35, 50, 41, 34, 93, 59, 10, 32, 32, 34, 51, 34, 32, 45,
+    62, 32, 34, 51, 34, 32, 91, 108, 97, 98, 101, 108, 61, 34, 97, 32, 40, 67, 35, 48, 41, 34, 93,
+    59, 10, 32, 32, 115, 117, 98, 103, 114, 97, 112, 104, 32, 99, 108, 117, 115, 116, 101, 114, 95,
+    48, 32, 123, 10, 32, 32, 32, 32, 108, 97, 98, 101, 108, 61, 34, 76, 65, 32, 102, 111, 114, 32,
+    84, 55, 40, 80, 111, 115, 41, 34, 59, 10, 32, 32, 32, 32, 102, 111, 110, 116, 115, 105, 122,
+    101, 61, 49, 48, 59, 10, 32, 32, 32, 32, 34, 55, 95, 48, 34, 32, 91, 115, 104, 97, 112, 101,
+    61, 99, 105, 114, 99, 108, 101, 44, 32, 99, 111, 108, 111, 114, 61, 103, 114, 101, 101, 110,
+    44, 32, 102, 111, 110, 116, 110, 97, 109, 101, 61, 34, 72, 101, 108, 118, 101, 116, 105, 99,
+    97, 34, 44, 32, 108, 97, 98, 101, 108, 61, 34, 48, 34, 93, 59, 10, 32, 32, 32, 32, 34, 55, 95,
+    49, 34, 32, 91, 115, 104, 97, 112, 101, 61, 100, 111, 117, 98, 108, 101, 99, 105, 114, 99, 108,
+    101, 44, 32, 99, 111, 108, 111, 114, 61, 98, 108, 97, 99, 107, 44, 32, 102, 111, 110, 116, 110,
+    97, 109, 101, 61, 34, 72, 101, 108, 118, 101, 116, 105, 99, 97, 34, 44, 32, 108, 97, 98, 101,
+    108, 61, 34, 49, 32, 84, 48, 34, 93, 59, 10, 32, 32, 32, 32, 34, 55, 95, 48, 34, 32, 45, 62,
+    32, 34, 55, 95, 49, 34, 32, 91, 108, 97, 98, 101, 108, 61, 34, 97, 32, 40, 67, 35, 48, 41, 34,
+    93, 59, 10, 32, 32, 125, 10, 125, 10]
+
+set_option maxRecDepth 20000 in
+theorem exRestyled_decodes : (parseDot exRestyledText).bind decodeDot = some exDoc := by decide
+
+/-- `exText` without any styling of single nodes, with default-attribute statements
+    (`graph [..];`, `node [..];`, `edge [..];`), extra attributes on edges and in the cluster, and
+    `label` not in last position.
+```
+digraph {
+  graph [fontname="Helvetica"];
+  node [shape=box, fontname="Helvetica"];
+  edge [fontsize=8];
+  label="M: a|b...";
+  "0" [label="0"];
+  "1" [label="1"];
+  "2" [label="2 T7", color=red];
+  "3" [label="3"];
+  "4" [label="4 T12"];
+  "0" -> "1" [color=grey, label="a (C#0)"];
+  "1" -> "2" [label="\" (C#3)"];
+  "0" -> "3" [label="[a-z] (C#10)", fontsize=8];
+  "3" -> "4" [label="\\ (C#2)"];
+  "3" -> "3" [label="a (C#0)"];
+  subgraph cluster_0 {
+    style=dashed;
+    label="LA for T7(Pos)";
+    node [shape=box];
+    "7_0" [label="0"];
+    "7_1" [label="1 T0"];
+    "7_0" -> "7_1" [label="a (C#0)", fontsize=8];
+  }
+}
+``` -/
+def exDefaultsText : List Nat := [
+    100, 105, 103, 114, 97, 112, 104, 32, 123, 10, 32, 32, 103, 114, 97, 112, 104, 32, 91, 102,
+    111, 110, 116, 110, 97, 109, 101, 61, 34, 72, 101, 108, 118, 101, 116, 105, 99, 97, 34, 93, 59,
+    10, 32, 32, 110, 111, 100, 101, 32, 91, 115, 104, 97, 112, 101, 61, 98, 111, 120, 44, 32, 102,
+    111, 110, 116, 110, 97, 109, 101, 61, 34, 72, 101, 108, 118, 101, 116, 105, 99, 97, 34, 93, 59,
+    10, 32, 32, 101, 100, 103, 101, 32, 91, 102, 111, 110, 116, 115, 105, 122, 101, 61, 56, 93, 59,
+    10, 32, 32, 108, 97, 98, 101, 108, 61, 34, 77, 58, 32, 97, 124, 98, 46, 46, 46, 34, 59, 10, 32,
+    32, 34, 48, 34, 32, 91, 108, 97, 98, 101, 108, 61, 34, 48, 34, 93, 59, 10, 32, 32, 34, 49, 34,
+    32, 91, 108, 97, 98, 101, 108, 61, 34, 49, 34, 93, 59, 10, 32, 32, 34, 50, 34, 32, 91, 108, 97,
+    98, 101, 108, 61, 34, 50, 32, 84, 55, 34, 44, 32, 99, 111, 108, 111, 114, 61, 114, 101, 100,
+    93, 59, 10, 32, 32, 34, 51, 34, 32, 91, 108, 97, 98, 101, 108, 61, 34, 51, 34, 93, 59, 10, 32,
+    32, 34, 52, 34, 32, 91, 108, 97, 98, 101, 108, 61, 34, 52, 32, 84, 49, 50, 34, 93, 59, 10, 32,
+    32, 34, 48, 34, 32, 45, 62, 32, 34, 49, 34, 32, 91, 99, 111, 108, 111, 114, 61, 103, 114, 101,
+    121, 44, 32, 108, 97, 98, 101, 108, 61, 34, 97, 32, 40, 67, 35, 48, 41, 34, 93, 59, 10, 32, 32,
+    34, 49, 34, 32, 45, 62, 32, 34, 50, 34, 32, 91, 108, 97, 98, 101, 108, 61, 34, 92, 34, 32, 40,
+    67, 35, 51, 41, 34, 93, 59, 10, 32, 32, 34, 48, 34, 32, 45, 62, 32, 34, 51, 34, 32, 91, 108,
+    97, 98, 101, 108, 61, 34, 91, 97, 45, 122, 93, 32, 40, 67, 35, 49, 48, 41, 34, 44, 32, 102,
+    111, 110, 116, 115, 105, 122, 101, 61, 56, 93, 59, 10, 32, 32, 34, 51, 34, 32, 45, 62, 32, 34,
+    52, 34, 32, 91, 108, 97, 98, 101, 108, 61, 34, 92, 92, 32, 40, 67, 35, 50, 41, 34, 93, 59, 10,
+    32, 32, 34, 51, 34, 32, 45, 62, 32, 34, 51, 34, 32, 91, 108, 97, 98, 101, 108, 61, 34, 97, 32,
+    40, 67, 35, 48, 41, 34, 93, 59, 10, 32, 32, 115, 117, 98, 103, 114, 97, 112, 104, 32, 99, 108,
+    117, 115, 116, 101, 114, 95, 48, 32, 123, 10, 32, 32, 32, 32, 115, 116, 121, 108, 101, 61, 100,
+    97, 115, 104, 101, 100, 59, 10, 32, 32, 32, 32, 108, 97, 98, 101, 108, 61, 34, 76, 65, 32, 102,
+    111, 114, 32, 84, 55, 40, 80, 111, 115, 41, 34, 59, 10, 32, 32, 32, 32, 110, 111, 100, 101, 32,
+    91, 115, 104, 97, 112, 101, 61, 98, 111, 120, 93, 59, 10, 32, 32, 32, 32, 34, 55, 95, 48, 34,
+    32, 91, 108, 97, 98, 101, 108, 61, 34, 48, 34, 93, 59, 10, 32, 32, 32, 32, 34, 55, 95, 49, 34,
+    32, 91, 108, 97, 98, 101, 108, 61, 34, 49, 32, 84, 48, 34, 93, 59, 10, 32, 32, 32, 32, 34, 55,
+    95, 48, 34, 32, 45, 62, 32, 34, 55, 95, 49, 34, 32, 91, 108, 97, 98, 101, 108, 61, 34, 97, 32,
+    40, 67, 35, 48, 41, 34, 44, 32, 102, 111, 110, 116, 115, 105, 122, 101, 61, 56, 93, 59, 10, 32,
+    32, 125, 10, 125, 10]
+
+set_option maxRecDepth 20000 in
+theorem exDefaults_decodes : (parseDot exDefaultsText).bind decodeDot = some exDoc := by decide
+
+/-- What is not cosmetic is still checked: each of these texts is well-formed (it parses) but does
+    not decode. -/
+theorem decodeDot_still_strict :
+    -- a node label that disagrees with the node number: `digraph { "1" [label="2"]; }`
+    ((parseDot [100, 105, 103, 114, 97, 112, 104, 32, 123, 32, 34, 49, 34, 32, 91, 108, 97, 98, 101, 108, 61, 34, 50, 34, 93, 59, 32, 125]).isSome = true ∧
+      (parseDot [100, 105, 103, 114, 97, 112, 104, 32, 123, 32, 34, 49, 34, 32, 91, 108, 97, 98, 101, 108, 61, 34, 50, 34, 93, 59, 32, 125]).bind decodeDot = none) ∧
+    -- an accepting label with another number in front: `digraph { "1" [label="2 T3"]; }`
+    ((parseDot [100, 105, 103, 114, 97, 112, 104, 32, 123, 32, 34, 49, 34, 32, 91, 108, 97, 98, 101, 108, 61, 34, 50, 32, 84, 51, 34, 93, 59, 32, 125]).isSome = true ∧
+      (parseDot [100, 105, 103, 114, 97, 112, 104, 32, 123, 32, 34, 49, 34, 32, 91, 108, 97, 98, 101, 108, 61, 34, 50, 32, 84, 51, 34, 93, 59, 32, 125]).bind decodeDot = none) ∧
+    -- a node without label: `digraph { "0" [color=blue]; }`
+    ((parseDot [100, 105, 103, 114, 97, 112, 104, 32, 123, 32, 34, 48, 34, 32, 91, 99, 111, 108, 111, 114, 61, 98, 108, 117, 101, 93, 59, 32, 125]).isSome = true ∧
+      (parseDot [100, 105, 103, 114, 97, 112, 104, 32, 123, 32, 34, 48, 34, 32, 91, 99, 111, 108, 111, 114, 61, 98, 108, 117, 101, 93, 59, 32, 125]).bind decodeDot = none) ∧
+    -- an accepting label without token type: `digraph { "1" [label="1 T"]; }`
+    ((parseDot [100, 105, 103, 114, 97, 112, 104, 32, 123, 32, 34, 49, 34, 32, 91, 108, 97, 98, 101, 108, 61, 34, 49, 32, 84, 34, 93, 59, 32, 125]).isSome = true ∧
+      (parseDot [100, 105, 103, 114, 97, 112, 104, 32, 123, 32, 34, 49, 34, 32, 91, 108, 97, 98, 101, 108, 61, 34, 49, 32, 84, 34, 93, 59, 32, 125]).bind decodeDot = none) ∧
+    -- an edge without class id: `digraph { "0" [label="0"]; "0" -> "0" [label="a"]; }`
+    ((parseDot [100, 105, 103, 114, 97, 112, 104, 32, 123, 32, 34, 48, 34, 32, 91, 108, 97, 98, 101, 108, 61, 34, 48, 34, 93, 59, 32, 34, 48, 34, 32, 45, 62, 32, 34, 48, 34, 32, 91, 108, 97, 98, 101, 108, 61, 34, 97, 34, 93, 59, 32, 125]).isSome = true ∧
+      (parseDot [100, 105, 103, 114, 97, 112, 104, 32, 123, 32, 34, 48, 34, 32, 91, 108, 97, 98, 101, 108, 61, 34, 48, 34, 93, 59, 32, 34, 48, 34, 32, 45, 62, 32, 34, 48, 34, 32, 91, 108, 97, 98, 101, 108, 61, 34, 97, 34, 93, 59, 32, 125]).bind decodeDot = none) ∧
+    -- an edge without label: `digraph { "0" [label="0"]; "0" -> "0" [color=red]; }`
+    ((parseDot [100, 105, 103, 114, 97, 112, 104, 32, 123, 32, 34, 48, 34, 32, 91, 108, 97, 98, 101, 108, 61, 34, 48, 34, 93, 59, 32, 34, 48, 34, 32, 45, 62, 32, 34, 48, 34, 32, 91, 99, 111, 108, 111, 114, 61, 114, 101, 100, 93, 59, 32, 125]).isSome = true ∧
+      (parseDot [100, 105, 103, 114, 97, 112, 104, 32, 123, 32, 34, 48, 34, 32, 91, 108, 97, 98, 101, 108, 61, 34, 48, 34, 93, 59, 32, 34, 48, 34, 32, 45, 62, 32, 34, 48, 34, 32, 91, 99, 111, 108, 111, 114, 61, 114, 101, 100, 93, 59, 32, 125]).bind decodeDot = none) ∧
+    -- a node name that is not a number: `digraph { "n0" [label="0"]; }`
+    ((parseDot [100, 105, 103, 114, 97, 112, 104, 32, 123, 32, 34, 110, 48, 34, 32, 91, 108, 97, 98, 101, 108, 61, 34, 48, 34, 93, 59, 32, 125]).isSome = true ∧
+      (parseDot [100, 105, 103, 114, 97, 112, 104, 32, 123, 32, 34, 110, 48, 34, 32, 91, 108, 97, 98, 101, 108, 61, 34, 48, 34, 93, 59, 32, 125]).bind decodeDot = none) ∧
+    -- a cluster without label: `digraph { subgraph cluster_0 { "7_0" [label="0"]; } }`
+    ((parseDot [100, 105, 103, 114, 97, 112, 104, 32, 123, 32, 115, 117, 98, 103, 114, 97, 112, 104, 32, 99, 108, 117, 115, 116, 101, 114, 95, 48, 32, 123, 32, 34, 55, 95, 48, 34, 32, 91, 108, 97, 98, 101, 108, 61, 34, 48, 34, 93, 59, 32, 125, 32, 125]).isSome = true ∧
+      (parseDot [100, 105, 103, 114, 97, 112, 104, 32, 123, 32, 115, 117, 98, 103, 114, 97, 112, 104, 32, 99, 108, 117, 115, 116, 101, 114, 95, 48, 32, 123, 32, 34, 55, 95, 48, 34, 32, 91, 108, 97, 98, 101, 108, 61, 34, 48, 34, 93, 59, 32, 125, 32, 125]).bind decodeDot = none) ∧
+    -- a cluster whose nodes do not carry its token type: `digraph { subgraph cluster_0 { label="LA for T7(Pos)"; "8_0" [label="0"]; } }`
+    ((parseDot [100, 105, 103, 114, 97, 112, 104, 32, 123, 32, 115, 117, 98, 103, 114, 97, 112, 104, 32, 99, 108, 117, 115, 116, 101, 114, 95, 48, 32, 123, 32, 108, 97, 98, 101, 108, 61, 34, 76, 65, 32, 102, 111, 114, 32, 84, 55, 40, 80, 111, 115, 41, 34, 59, 32, 34, 56, 95, 48, 34, 32, 91, 108, 97, 98, 101, 108, 61, 34, 48, 34, 93, 59, 32, 125, 32, 125]).isSome = true ∧
+      (parseDot [100, 105, 103, 114, 97, 112, 104, 32, 123, 32, 115, 117, 98, 103, 114, 97, 112, 104, 32, 99, 108, 117, 115, 116, 101, 114, 95, 48, 32, 123, 32, 108, 97, 98, 101, 108, 61, 34, 76, 65, 32, 102, 111, 114, 32, 84, 55, 40, 80, 111, 115, 41, 34, 59, 32, 34, 56, 95, 48, 34, 32, 91, 108, 97, 98, 101, 108, 61, 34, 48, 34, 93, 59, 32, 125, 32, 125]).bind decodeDot = none) := by
+  decide
+
 /-! ## A file the crate wrote: `example1.dot` -/
 
 /-- ```
@@ -1170,6 +1362,28 @@ theorem pAttrStmt_len (k : List Nat) (ts : List DTok) (st r) (h : pAttrStmt k ts
     · simp at h
   · simp at h
 
+theorem pDfltStmt_len (k : List Nat) (ts : List DTok) (st r) (h : pDfltStmt k ts = some (st, r)) :
+    r.length < ts.length := by
+  unfold pDfltStmt at h
+  split at h
+  · split at h
+    · rename_i heq
+      have := pAttrs_len _ _ _ heq
+      simp at h this; rw [← h.2]; simp; omega
+    · simp at h
+  · simp at h
+
+theorem pIdStmt_len (k : List Nat) (ts : List DTok) (st r) (h : pIdStmt k ts = some (st, r)) :
+    r.length < ts.length := by
+  unfold pIdStmt at h
+  split at h
+  · rename_i x heq
+    simp at h; subst h
+    exact pAttrStmt_len _ _ _ _ heq
+  · split at h
+    · exact pDfltStmt_len _ _ _ _ h
+    · simp at h
+
 theorem pStrStmt_len (name : List Nat) (ts : List DTok) (st r) (h : pStrStmt name ts = some (st, r)) :
     r.length < ts.length := by
   unfold pStrStmt at h
@@ -1224,7 +1438,7 @@ theorem pStmts_len : ∀ (f : Nat) (ts : List DTok) ss r, pStmts f ts = some (ss
         · split at h
           · simp at h
           · rename_i st r1 h1
-            have l1 := pAttrStmt_len _ _ _ _ h1
+            have l1 := pIdStmt_len _ _ _ _ h1
             split at h
             · simp at h
             · rename_i ss' r2 h2
@@ -1275,11 +1489,11 @@ theorem pStmts_fuel : ∀ (f : Nat) (ts : List DTok), ts.length < f → ∀ f', 
               have l2 := pStmts_len _ _ _ _ h2
               simp only
               rw [ih r2 (by omega) g hg]
-        · cases h1 : pAttrStmt s rest with
+        · cases h1 : pIdStmt s rest with
           | none => rfl
           | some p =>
             obtain ⟨st, r1⟩ := p
-            have l1 := pAttrStmt_len _ _ _ _ h1
+            have l1 := pIdStmt_len _ _ _ _ h1
             simp only
             rw [ih r1 (by omega) g hg]
       | str name =>
@@ -1306,7 +1520,7 @@ theorem nodeOK_nodeOf (A : Dfa) (id : Nat) : NodeOK (nodeOf A id) := by
   unfold nodeOf
   split
   · simp [NodeOK]
-  · split <;> simp [NodeOK]
+  · split <;> simp [NodeOK, *]
 
 theorem graphOK_dotGraph (A : Dfa) : GraphOK (dotGraph A) := by
   intro n hn
@@ -1339,6 +1553,7 @@ theorem keywords_spelled :
     kwShape = cps "shape" ∧ kwCircle = cps "circle" ∧ kwPenwidth = cps "penwidth" ∧ kwThree = cps "3" ∧
     kwRankdir = cps "rankdir" ∧ kwLR = cps "LR" ∧ kwClassOpen = cps " (C#" ∧ kwLaFor = cps "LA for T" ∧
     kwPos = cps "Pos)" ∧ kwNeg = cps "Neg)" ∧
+    kwNode = cps "node" ∧ kwEdge = cps "edge" ∧ kwGraph = cps "graph" ∧
     txtShapeColor = cps "shape=circle, color=" ∧ txtPenLabel = cps ", penwidth=3, label=" ∧
     txtLabelEq = cps "label=" ∧ ind2 = cps "  " ∧ ind4 = cps "    " ∧
     exTitle = cps "M: a|b..." := by
